@@ -2,6 +2,7 @@
 (property C01's quantifier), their inkdrive scripts, and their Gallina AST (Spec/InkAst.v).
 
     src, ast = gen_program(rng, **weights)          # every random choice from `rng` (random.Random)
+    src, ast, term = gen_refsem(rng, **weights)     # only what Spec/RefSem.v covers + the Gallina term
     case = gen_script(rng, ast, kind)               # inkdrive case fragment (script / explore)
     term = ast_to_coq(ast)                          # Gallina term of type InkAst.program
     print_program(ast) -> source text               # (so shrinkers can work on the AST)
@@ -54,9 +55,11 @@ DEFAULT_WEIGHTS = dict(
     choice_tags=0.15, choice_divert=0.35, back_divert=0.5, gather_label=0.3, choice_inline=0.25,
     # expressions
     read_count=0.8, turns_since=0.3, choice_count=0.3, turns=0.1, random=0.25, seed_random=0.1,
-    strings=1.0, str_concat_int=0.3, func_text=0.4, func_call=0.8,
+    strings=1.0, str_concat_int=0.3, func_text=0.4, func_call=0.8, pure_func=0.3,
     lists=0.0,
     end_done=0.3,         # probability that a final divert is DONE instead of END
+    workarounds=1.0,      # > 0: avoid the constructs this compiler is known to miscompile (see the
+                          # "finding c01-..." comments); 0: generate them too (valid Ink all the same)
 )
 
 # what Spec/RefSem.v covers: everything else is switched off in fragment="refsem"
@@ -78,6 +81,7 @@ def _pick(rng, table):
 class Gen:
     def __init__(self, rng, w):
         self.rng, self.w = rng, w
+        self.wa = w.get("workarounds", 1.0) > 0
         self.seq_id = 0
         self.choice_id = 0
         self.label_id = 0
@@ -313,7 +317,7 @@ class Gen:
                 return self.line(sc)
             vals = r.sample([0, 1, 2, 3, 4], r.randint(1, 3))
             # (inline logic in switch branches is miscompiled too: finding c01-switch-inline-logic)
-            ssc = dict(sc, plain_inline=True)
+            ssc = dict(sc, plain_inline=self.wa)
             brs = [[["i", v], self.simple_block(ssc, inner - {"if"}, 1, 2)] for v in vals]
             els = self.simple_block(ssc, inner - {"if"}, 1, 2) if r.random() < 0.6 else None
             return ["switch", ["v", r.choice(sc["ints"])], brs, els]
@@ -322,7 +326,7 @@ class Gen:
         self.seq_id += 1
         # inline conditionals / alternatives inside a multi-line sequence element are miscompiled by
         # this compiler (finding c01-seqblock-inline-logic): keep the elements plain
-        psc = dict(sc, plain_inline=True)
+        psc = dict(sc, plain_inline=self.wa)
         return ["seqblock", kind, self.seq_id, [self.simple_block(psc, set(), 1, 2) for _ in range(r.randint(2, 3))]]
 
     def simple_block(self, sc, allow, lo, hi):
@@ -360,7 +364,7 @@ class Gen:
         else:
             if self.p("choice_label"):
                 c["label"] = self.new_label(sc["place"])
-            tsc = dict(sc, no_calls=True, choice_text=True)
+            tsc = dict(sc, no_calls=True, choice_text=self.wa)
             simple = not self.p("choice_inline")
             c["start"] = [["t", self.words(1, 3)]] if simple else self.inline(tsc, 0, False)
             if self.p("bracket"):
@@ -385,18 +389,18 @@ class Gen:
             if fallback and t == "->->":
                 c["conds"] = []
                 body.append(["divert", t])
-            elif fallback and c["conds"]:
+            elif fallback and c["conds"] and self.wa:
                 # `* {cond} ->` followed by a body is miscompiled (finding c01-conditional-fallback-body):
                 # a conditional fallback only gets an inline target
                 body = []
                 c["divert"] = t
-            elif fallback and not body and r.random() < 0.5:
+            elif (fallback or not self.wa) and not body and r.random() < 0.5:
                 c["divert"] = t
             else:
                 # (no inline divert on a visible choice line, and no body that is only `-> END`: this
                 # compiler's newline after the choice text differs from the reference there —
                 # findings c01-choice-inline-divert-newline, c01-choice-newline-before-end)
-                if not fallback and not body and (t in ("END", "DONE") or not c["start"]):
+                if self.wa and not fallback and not body and (t in ("END", "DONE") or not c["start"]):
                     body.append(["line", [["t", self.words()]], [], None])
                 body.append(["divert", t])
         c["body"] = body
@@ -408,6 +412,8 @@ class Gen:
         when the flow also has a labelled gather (finding c01-bare-gather-after-bracket-choice)"""
         if self.p("gather_label"):
             return [["gather", self.new_label(sc["place"])]]
+        if not self.wa and self.rng.random() < 0.5:
+            return [["gather", None]]
         return [["gather", None], ["line", [["t", self.words()]] + self.inline(sc)[1:], self.tags(), None]]
 
     def choice_group(self, sc, level, must_divert):
@@ -476,8 +482,9 @@ class Gen:
             sc = dict(base, ints=gints + f["params"], params=f["params"], funcs=funcs[i + 1:], tunnels=[],
                       threads=[], forward=[], allow={"if"}, place=f["name"], no_counts=False, seedable=False)
             body = []
-            text = self.p("func_text")
-            for _ in range(r.randint(0, 2)):
+            pure = self.p("pure_func")          # no assignment, no text: only computes its result
+            text = (not pure) and self.p("func_text")
+            for _ in range(0 if pure else r.randint(0, 2)):
                 k = _pick(r, [("assign", 2.0), ("line", 1.5 if text else 0.0), ("ifret", 1.0)])
                 if k == "assign":
                     a = self.assign(sc)
@@ -562,6 +569,13 @@ def gen_program(rng, fragment="full", **weights):
     ast = Gen(rng, w).program()
     ast["fragment"] = fragment
     return print_program(ast), ast
+
+
+def gen_refsem(rng, **weights):
+    """-> (source_text, ast, gallina_term): a program of the RefSem fragment together with its AST as a
+    term of type InkAst.program (what Spec/RefSem.v is evaluated on)"""
+    src, ast = gen_program(rng, fragment="refsem", **weights)
+    return src, ast, ast_to_coq(ast)
 
 
 # ================================================================== printer
@@ -1085,7 +1099,9 @@ def lookahead_variant(ast, rng, mode):
     text line (newline-terminated, no glue at its end) of a main weave insert
        mode "noop":  a statement without output or effect on observed state (`~ temp zz = 0`-style
                      evaluation) — the engine has to look further ahead to confirm the line end;
-       mode "glue":  nothing here (reserved: glue changes the text, so it is not semantics-preserving).
+       mode "cond":  a text line whose only content is an inline conditional that is false (prints
+                     nothing; its newline is absorbed);
+       (a glue line would change the text, so it is not semantics-preserving and is not offered).
     Returns a new AST (deep copy)."""
     a = copy.deepcopy(ast)
     n = [0]
@@ -1096,10 +1112,14 @@ def lookahead_variant(ast, rng, mode):
             out.append(s)
             if s[0] == "line" and s[3] is None and rng.random() < 0.7:
                 n[0] += 1
-                out.append(["temp", "zz%d" % n[0], ["i", n[0]]])
-                if rng.random() < 0.4:
-                    n[0] += 1
-                    out.append(["temp", "zz%d" % n[0], ["bin", "+", ["i", 1], ["i", n[0]]]])
+                if mode == "cond":
+                    # a line that prints nothing: the engine has to evaluate it to find that out
+                    out.append(["line", [["t", ""], ["c", ["bin", ">", ["i", 0], ["i", n[0]]], [["t", "never"]], None]], [], None])
+                else:
+                    out.append(["temp", "zz%d" % n[0], ["i", n[0]]])
+                    if rng.random() < 0.4:
+                        n[0] += 1
+                        out.append(["temp", "zz%d" % n[0], ["bin", "+", ["i", 1], ["i", n[0]]]])
             if s[0] == "choices":
                 for c in s[1]:
                     c["body"] = blk(c["body"])
